@@ -47,6 +47,9 @@ func NameClasses(n string) []string {
 	if strings.ContainsAny(n, "&=+") {
 		out = append(out, "urlmisc")
 	}
+	if strings.Contains(n, "OAIGen") {
+		out = append(out, "oaigen")
+	}
 	return out
 }
 
